@@ -1,0 +1,12 @@
+//go:build verif
+
+package b6
+
+// Contracts of the b6vc verifier (/verif): //@ comment blocks keyed by
+// function (or interface method) name and loop ordinal.
+
+// A feature's ID is a function of the feature value: it does not change while a
+// world operation runs (SetFeatureID is not called by the verified functions).
+//@ func Identifiable.FeatureID
+//@   trusted
+//@   function
